@@ -4,22 +4,23 @@ import PyIpmi.Gen.Tables
 namespace PyIpmi.Model.Api
 open PyIpmi PyIpmi.Codec PyIpmi.Spec.Bmc PyIpmi.Gen.Tables
 
-/-- `states = rsp.states1 | rsp.states2 << 8` over the optional state bytes -/
-def statesOf (v : List Val) : Option Nat :=
+/-- `states = rsp.states1 | (rsp.states2 & 0x7f) << 8` over the optional state bytes (fixes/C07-14: bit 7 of the
+second state byte is reserved, "returned as 1b, ignore on read"); `rawBit`: AS SHIPPED, `rsp.states2 << 8` unmasked -/
+def statesOf (v : List Val) (rawBit : Bool := false) : Option Nat :=
   match optIntAt v 3, optIntAt v 4 with
-  | some a, some b => some (a ||| b * 256)
+  | some a, some b => some (a ||| (if rawBit then b else b % 128) * 256)
   | some a, none => some a
   | none, _ => none
 
 /-- get_sensor_reading; `shipped`: while `rsp.config.initial_update_in_progress` (reading/state unavailable) is
 set only the reading is withheld and `states` is still built from the state bytes; INTENDED (fixes/C07-10):
 `(None, None)` -/
-def getSensorReading (shipped : Bool) (num lun : Nat) : Exchange :=
+def getSensorReading (shipped : Bool) (num lun : Nat) (rawBit : Bool := false) : Exchange :=
   { req := reqGetSensorReading, rsp := rspGetSensorReading, lun := lun,
     vals := .ok (setInt (fresh reqGetSensorReading) 0 num),
     post := fun v =>
-      if bitAt v 2 1 != 0 then .ok (.optNatPair none (if shipped then statesOf v else none))
-      else .ok (.optNatPair (some (intAt v 1)) (statesOf v)) }
+      if bitAt v 2 1 != 0 then .ok (.optNatPair none (if shipped then statesOf v rawBit else none))
+      else .ok (.optNatPair (some (intAt v 1)) (statesOf v rawBit)) }
 
 def api_get_sensor_reading := getSensorReading false
 def api_get_sensor_reading_shipped := getSensorReading true
